@@ -3,6 +3,7 @@ import Deb822Verif.Props.C04
 import Deb822Verif.Props.C18
 import Deb822Verif.Lemmas.Text
 import Deb822Verif.Lemmas.SplitOn
+import Deb822Verif.Lemmas.EnvMap
 /-!
 # C15 — typed accessors: what a setter writes, its getter reads; nothing else moves
 
@@ -787,10 +788,108 @@ theorem C15_synopsis_long_independent (o v : Str) (st a : Bool) :
     · exact decode_firstLine_single _ hf st a
     · exact decode_firstLine_cons _ v hf st a
 
-/-- environment maps: what `set_environment` writes for one variable reads back -/
-example : (encode .envMap (.list ["B=x=y".toList, "A=1".toList])).map (decode .envMap true false)
-    = some (.list ["A=1".toList, "B=x=y".toList]) := by decide +kernel
+/-! ### environment maps (`Buildinfo::set_environment` / `environment`) -/
 
+open Deb822Verif.EnvMap in
+theorem insertSorted_perm (x : Str) (l : List Str) : List.Perm (insertSorted x l) (x :: l) := by
+  induction l with
+  | nil => exact List.Perm.refl _
+  | cons y ys ih =>
+    simp only [insertSorted]
+    split
+    · exact (List.Perm.cons y ih).trans (List.Perm.swap _ _ _)
+    · exact List.Perm.refl _
+
+theorem sortStrs_perm (l : List Str) : List.Perm (sortStrs l) l := by
+  induction l with
+  | nil => exact List.Perm.refl _
+  | cons x xs ih => exact (insertSorted_perm x (sortStrs xs)).trans (List.Perm.cons x ih)
+
+theorem split_envPiece (p : Str × Str) (h : '=' ∉ p.1) :
+    Codec.splitOnFirst ['='] (envPiece p) = some p := by
+  have := C18.splitOnFirst_found '=' [] p.1 p.2 h
+  simpa [envPiece] using this
+
+theorem envLines_pieces (ps acc : List (Str × Str)) (h : ∀ p ∈ ps, '=' ∉ p.1) :
+    envLines (ps.map envPiece) acc = some (EnvMap.insAll acc ps) := by
+  induction ps generalizing acc with
+  | nil => rfl
+  | cons p r ih =>
+    simp only [List.map_cons, envLines, split_envPiece p (h p (by simp))]
+    exact ih _ (fun q hq => h q (by simp [hq]))
+
+/-- the exact domain of the environment codec: the map in canonical form (keys strictly increasing,
+    i.e. a `HashMap` by its key-sorted entries), no key contains `=` or a newline, no value
+    contains a newline, and no `KEY=value` line ends in a carriage return (`lines()` strips it) -/
+structure CanonEnv (m : List (Str × Str)) : Prop where
+  sorted : EnvMap.KeySorted m
+  entries : ∀ p ∈ m, '=' ∉ p.1 ∧ '\n' ∉ p.1 ∧ '\n' ∉ p.2 ∧ (envPiece p).getLast? ≠ some '\r'
+
+/-- `set_environment(m)` then `environment()` returns `m`: the `KEY=value` lines are written
+    sorted and joined by `\n`, read back by `lines()` + `split_once('=')` into a map — for ANY
+    number of variables in the domain `CanonEnv` -/
+theorem C15_codec_env (m : List (Str × Str)) (h : CanonEnv m) :
+    RoundTrip .envMap .envMap (.map m) := by
+  intro st a
+  obtain ⟨hsorted, hm⟩ := h
+  have hperm : List.Perm (sortStrs (m.map envPiece)) (m.map envPiece) := sortStrs_perm _
+  -- the sorted lines are the lines of a permutation `ps` of `m`
+  let unpiece : Str → Str × Str := fun l => (Codec.splitOnFirst ['='] l).getD ([], [])
+  let ps := (sortStrs (m.map envPiece)).map unpiece
+  have hinv : ∀ p ∈ m, unpiece (envPiece p) = p := by
+    intro p hp; simp [unpiece, split_envPiece p (hm p hp).1]
+  have hps : List.Perm ps m := by
+    have h1 : List.Perm ps ((m.map envPiece).map unpiece) := hperm.map unpiece
+    have h2 : (m.map envPiece).map unpiece = m := by
+      rw [List.map_map]
+      exact map_id_on _ m (fun p hp => hinv p hp)
+    rwa [h2] at h1
+  have hlines : ps.map envPiece = sortStrs (m.map envPiece) := by
+    simp only [ps, List.map_map]
+    apply map_id_on
+    intro l hl
+    have : l ∈ m.map envPiece := hperm.subset hl
+    simp only [List.mem_map] at this
+    obtain ⟨p, hp, rfl⟩ := this
+    simp [hinv p hp]
+  have hpm : ∀ p ∈ ps, p ∈ m := fun p hp => hps.subset hp
+  have hl : lines (join ['\n'] (sortStrs (m.map envPiece))) = sortStrs (m.map envPiece) := by
+    apply lines_join
+    intro w hw
+    have : w ∈ m.map envPiece := hperm.subset hw
+    simp only [List.mem_map] at this
+    obtain ⟨p, hp, rfl⟩ := this
+    obtain ⟨_, h2, h3, h4⟩ := hm p hp
+    refine ⟨⟨?_, h4⟩, by simp [envPiece]⟩
+    intro hmem
+    simp only [envPiece, List.mem_append, List.mem_cons] at hmem
+    rcases hmem with hmem | hmem | hmem
+    · exact h2 hmem
+    · exact absurd hmem (by decide)
+    · exact h3 hmem
+  simp only [encode, decode, decodeEnv, Option.map_some, hl]
+  rw [← hlines, envLines_pieces ps [] (fun p hp => (hm p (hpm p hp)).1),
+    EnvMap.insAll_perm_eq m ps hsorted hps]
+
+example : CanonEnv [("A".toList, "1".toList), ("A-B".toList, "x=y".toList), ("LANG".toList, "C.UTF-8".toList)] :=
+  ⟨by simp [EnvMap.KeySorted]; decide, by decide⟩
+
+/-- the side conditions cannot be dropped: a key containing `=` comes back split at its first `=`
+    (`{"B=x": "y"}` reads as `{"B": "x=y"}`) … -/
+theorem C15_codec_env_needs_key_no_eq :
+    (encode .envMap (.map [("B=x".toList, "y".toList)])).map (decode .envMap true false)
+      = some (.map [("B".toList, "x=y".toList)]) := by decide +kernel
+
+/-- … a value with a newline becomes a line of its own (here: a line without `=`, the getter panics) … -/
+theorem C15_codec_env_needs_value_one_line :
+    (encode .envMap (.map [("A".toList, "1\n2".toList)])).map (decode .envMap true false) = some .panic := by
+  decide +kernel
+
+/-- … and a value ending in a carriage return loses it when another line follows (`lines()` strips
+    `\r` before `\n`; on the last line it is kept, the only slack in `CanonEnv`) -/
+theorem C15_codec_env_needs_no_trailing_cr :
+    (encode .envMap (.map [("A".toList, "1\r".toList), ("B".toList, "2".toList)])).map (decode .envMap true false)
+      = some (.map [("A".toList, "1".toList), ("B".toList, "2".toList)]) := by decide +kernel
 
 /-! ## Layer 3 — the generated table -/
 
@@ -798,6 +897,7 @@ example : (encode .envMap (.list ["B=x=y".toList, "A=1".toList])).map (decode .e
     one open entry each in known_findings.json) -/
 def knownBad : List (Str × Str) := [
   ("dep3.PatchHeader".toList, "set_upstream_bug".toList),
+  ("dep3.PatchHeader".toList, "set_vendor_bug".toList),
   ("copyright.FilesParagraph".toList, "set_license".toList)
 ]
 
@@ -952,9 +1052,14 @@ theorem C15_table_pairs' (g : Row) (hg : g ∈ Gen.Accessors.rows) (hk : g.kind 
   simp only [hk, ho, hs, hb, hu, Bool.or_false, Bool.false_or] at this
   simpa using this
 
-/-- no setter is left unmodelled except the opaque ones (parametric field names) -/
+/-- no setter is left unmodelled -/
 theorem C15_table_no_composite_setter :
     ∀ s ∈ Gen.Accessors.rows, s.kind = .set → s.shape ≠ .composite := by decide +kernel
+
+/-- no row of the table is opaque or composite: every public method touching the paragraph is
+    classified into a modelled shape (the table theorems have no row outside their range) -/
+theorem C15_table_no_opaque :
+    ∀ r ∈ Gen.Accessors.rows, r.isOpaque = false ∧ r.shape ≠ .composite := by decide +kernel
 
 /-- every setter outside `knownBad` (paired with a getter or not) writes with `set` and clears with
     `remove` -/
@@ -992,6 +1097,7 @@ theorem C15_table_distinct : distinctCheck = true := by decide +kernel
 def rowOp (view method : String) : Option POp := (findRow view.toList method.toList).map (·.op)
 
 theorem C15_bad_dep3_set_upstream_bug : rowOp "dep3.PatchHeader" "set_upstream_bug" = some .insert := by decide +kernel
+theorem C15_bad_dep3_set_vendor_bug : rowOp "dep3.PatchHeader" "set_vendor_bug" = some .insert := by decide +kernel
 
 /-- `FilesParagraph::set_license` writes `License::Text` without the empty first line: its codec
     shape is not the one `license()` reads -/
@@ -1145,6 +1251,472 @@ theorem C15_table_clear (g : Row) (hg : g ∈ Gen.Accessors.rows) (hk : g.kind =
     ∃ cs', setSem s v cs = some cs' ∧ getSem g a cs' = absentVal g := by
   obtain ⟨k, _, _, _, _, h2⟩ := C15_pair_sound g s (C15_table_pairs' g hg hk ho s hs hb hu) cs v a
   exact ⟨_, (h2 hc).2.1, (h2 hc).2.2.2⟩
+
+/-! ### methods with a field-name parameter (`Package::tags(tag)`, `set_tags(tag, …)`, `set_vendor_bug(vendor, …)`)
+
+Their rows carry a name template; `Row.inst r arg` is the row for one argument, and every theorem
+about rows applies to it. -/
+
+theorem pairOk_inst (g s : Row) (arg : Str) (h : pairOk g s = true) :
+    pairOk (g.inst arg) (s.inst arg) = true := by
+  simp only [pairOk, Bool.and_eq_true, beq_iff_eq, Bool.not_eq_true', List.contains_eq_mem,
+    decide_eq_true_eq, clearOk, Row.inst] at h ⊢
+  obtain ⟨⟨⟨⟨⟨⟨⟨⟨⟨⟨h1, h2⟩, h3⟩, h4⟩, h5⟩, h6⟩, h7⟩, h8⟩, h9⟩, h10⟩, h11⟩ := h
+  refine ⟨⟨⟨⟨⟨⟨⟨⟨⟨⟨h1, h2⟩, h3⟩, h4⟩, h5⟩, h6⟩, by rw [h7]⟩, ?_⟩, ?_⟩, h10⟩, ?_⟩
+  · cases hn : s.names <;> simp_all
+  · exact List.mem_map_of_mem h9
+  · simpa using h11
+
+theorem substName_tag (arg : Str) : substName arg "{tag}".toList = arg := by
+  have h1 : Codec.splitOnFirst ['{'] "{tag}".toList = some ([], "tag}".toList) := by decide
+  have h2 : Codec.splitOnFirst ['}'] "tag}".toList = some ("tag".toList, []) := by decide
+  unfold substName
+  rw [h1]
+  dsimp only
+  rw [h2]
+  simp
+
+theorem substName_vendor (arg : Str) : substName arg "Bug-{vendor}".toList = "Bug-".toList ++ arg := by
+  have h1 : Codec.splitOnFirst ['{'] "Bug-{vendor}".toList = some ("Bug-".toList, "vendor}".toList) := by decide
+  have h2 : Codec.splitOnFirst ['}'] "vendor}".toList = some ("vendor".toList, []) := by decide
+  unfold substName
+  rw [h1]
+  dsimp only
+  rw [h2]
+  simp
+
+/-- the table row of a method (a dummy opaque row if there is none) -/
+def rowOf (view method : String) : Row :=
+  (findRow view.toList method.toList).getD ⟨[], [], .other, .none, .none, [], .opaque, false, .none, false, []⟩
+
+/-- `Package::set_tags(tag, v)` then `tags(tag)`: for EVERY field name `tag`, the pair conditions
+    hold for the instantiated rows, whose one name is `tag` itself — so `C15_pair_sound`,
+    `C15_set_then_get` (with `C15_codec_list_comma`) and the sequence theorems apply -/
+theorem C15_tags_pair (tag : Str) :
+    findRow "apt.Package".toList "tags".toList = some (rowOf "apt.Package" "tags")
+      ∧ findRow "apt.Package".toList "set_tags".toList = some (rowOf "apt.Package" "set_tags")
+      ∧ pairOk ((rowOf "apt.Package" "tags").inst tag) ((rowOf "apt.Package" "set_tags").inst tag) = true
+      ∧ ((rowOf "apt.Package" "tags").inst tag).names = [tag]
+      ∧ ((rowOf "apt.Package" "set_tags").inst tag).names = [tag]
+      ∧ ((rowOf "apt.Package" "set_tags").inst tag).dflt = tag := by
+  have e1 : (rowOf "apt.Package" "tags").names = ["{tag}".toList] := by decide +kernel
+  have e2 : (rowOf "apt.Package" "set_tags").names = ["{tag}".toList] := by decide +kernel
+  have e3 : (rowOf "apt.Package" "set_tags").dflt = "{tag}".toList := by decide +kernel
+  refine ⟨by decide +kernel, by decide +kernel, pairOk_inst _ _ tag (by decide +kernel), ?_, ?_, ?_⟩
+  · simp only [Row.inst, e1, List.map_cons, List.map_nil, substName_tag]
+  · simp only [Row.inst, e2, List.map_cons, List.map_nil, substName_tag]
+  · simp only [Row.inst, e3, substName_tag]
+
+/-- `set_vendor_bug(vendor, url)` writes the one name `Bug-<vendor>` — with `insert` (knownBad,
+    F-C15-14), so `C15_insert_duplicates` applies to it -/
+theorem C15_vendor_bug_row (vendor : Str) :
+    findRow "dep3.PatchHeader".toList "set_vendor_bug".toList = some (rowOf "dep3.PatchHeader" "set_vendor_bug")
+      ∧ ((rowOf "dep3.PatchHeader" "set_vendor_bug").inst vendor).names = ["Bug-".toList ++ vendor]
+      ∧ (rowOf "dep3.PatchHeader" "set_vendor_bug").op = .insert
+      ∧ (rowOf "dep3.PatchHeader" "set_vendor_bug").shape = .str := by
+  have e1 : (rowOf "dep3.PatchHeader" "set_vendor_bug").names = ["Bug-{vendor}".toList] := by decide +kernel
+  refine ⟨by decide +kernel, ?_, by decide +kernel, by decide +kernel⟩
+  simp only [Row.inst, e1, List.map_cons, List.map_nil, substName_vendor]
+
+/-! ### iterator-valued getters and paragraph lookups -/
+
+/-- DEP-3 `bugs()` is a function of the items alone; `vendor_bugs(v)` (the `Bug-<v>` entries of
+    it) is `get_all("Bug-" ++ v)` -/
+theorem C15_vendor_bugs (l : Items) (vendor : Str) :
+    (l.filterMap fun f => if f.1 = bugPrefix ++ vendor then some f.2 else none)
+      = (l.filter fun f => f.1 == bugPrefix ++ vendor).map (·.2) := by
+  induction l with
+  | nil => rfl
+  | cons f fs ih => by_cases h : f.1 = bugPrefix ++ vendor <;> simp [List.filterMap_cons, List.filter_cons, h, ih]
+
+/-- the upstream bugs of `bugs()` are the `Bug` fields, the vendor bugs the `Bug-<vendor>` fields,
+    in paragraph order, and nothing else is listed -/
+theorem C15_bugs_scan (l : Items) (e : Str) :
+    e ∈ bugsScan l ↔ ∃ f ∈ l, (f.1 = bugKey ∧ e = '=' :: f.2)
+      ∨ (∃ vendor, f.1 = bugPrefix ++ vendor ∧ e = vendor ++ '=' :: f.2) := by
+  simp only [bugsScan, List.mem_filterMap]
+  constructor
+  · rintro ⟨f, hf, he⟩
+    refine ⟨f, hf, ?_⟩
+    cases hp : stripPrefix bugPrefix f.1 with
+    | some vendor =>
+      rw [hp] at he
+      simp only [Option.some.injEq] at he
+      right
+      refine ⟨vendor, ?_, he.symm⟩
+      simp only [stripPrefix] at hp
+      split at hp
+      · rename_i hpre
+        simp only [Option.some.injEq] at hp
+        have := List.prefix_iff_eq_append.1 (List.isPrefixOf_iff_prefix.1 hpre)
+        rw [← this, hp]
+      · cases hp
+    | none =>
+      rw [hp] at he
+      dsimp only at he
+      by_cases hk : f.1 = bugKey
+      · rw [if_pos hk] at he
+        simp only [Option.some.injEq] at he
+        exact Or.inl ⟨hk, he.symm⟩
+      · rw [if_neg hk] at he
+        cases he
+  · rintro ⟨f, hf, h⟩
+    refine ⟨f, hf, ?_⟩
+    rcases h with ⟨hk, he⟩ | ⟨vendor, hk, he⟩
+    · have h0 : stripPrefix bugPrefix bugKey = none := by decide
+      rw [hk, h0]
+      simp [he]
+    · have : stripPrefix bugPrefix f.1 = some vendor := by
+        rw [hk]; simp [stripPrefix]
+      simp [this, he]
+
+/-- `Control::source()` (and every `findPara` row): the FIRST paragraph having the field -/
+theorem C15_find_para (root : DNode) (k : Str) (p : DNode) (h : findPara root k = some p) :
+    hasField k p = true ∧ ∃ pre post, paragraphs root = pre ++ p :: post ∧ ∀ q ∈ pre, hasField k q = false := by
+  unfold findPara at h
+  obtain ⟨hp, pre, post, he, hpre⟩ := List.find?_eq_some_iff_append.1 h
+  exact ⟨hp, pre, post, he, fun q hq => by simpa using hpre q hq⟩
+
+/-- `Control::binaries()`, `Copyright::iter_files()`: exactly the paragraphs having the field, in
+    document order; `Copyright::iter_licenses()`: those with `License` and without `Files`;
+    `Copyright::header()`: the first paragraph -/
+theorem C15_filter_para (root : DNode) (k excl : Str) (p : DNode) :
+    (p ∈ filterPara root k ↔ p ∈ paragraphs root ∧ hasField k p = true)
+    ∧ (p ∈ filterParaWithout root k excl ↔ p ∈ paragraphs root ∧ hasField excl p = false ∧ hasField k p = true)
+    ∧ List.Sublist (filterPara root k) (paragraphs root)
+    ∧ List.Sublist (filterParaWithout root k excl) (paragraphs root)
+    ∧ firstPara root = (paragraphs root).head? := by
+  refine ⟨by simp [filterPara], by simp [filterParaWithout], List.filter_sublist, List.filter_sublist, rfl⟩
+
+/-- every document-level getter row of the table is one of these lookups -/
+theorem C15_table_para_rows :
+    ∀ r ∈ Gen.Accessors.rows, r.op = .paragraphs → (paraSem r (.node .ROOT [])).isSome = true := by
+  decide +kernel
+
+/-! ### `Control::add_source` / `add_binary` -/
+
+theorem addParagraph_handles (d : Doc) : (addParagraph d).handles.length = d.handles.length + 1 := by
+  simp [addParagraph, insertEmptyParagraph, shiftIns]
+
+theorem addPara_run (d : Doc) (k v : Str) :
+    addPara d k v = Spec.run d [.addp, .set d.handles.length k v] := by
+  simp [addPara, Spec.run, Spec.step, addParagraph_handles]
+
+/-- `Control::add_source(name)` / `add_binary(name)`: on any parsed document (any child list made of
+    nodes) the paragraphs afterwards are the paragraphs before — each reading the same fields —
+    followed by ONE new paragraph reading exactly `[(Source|Package, name)]` (from the history
+    refinement of Props/C04: `add_paragraph` then `set` through the new handle) -/
+theorem C15_add_para (kids : List DNode) (hn : AllNodes kids) (k v : Str) :
+    docItems (addPara (startOf kids) k v).root = docItems (.node .ROOT kids) ++ [[(k, v)]] := by
+  rw [addPara_run]
+  have H := (C04_history_oracle kids hn [.addp, .set (startOf kids).handles.length k v]).2.1
+  rw [H]
+  have hlen : (startOf kids).handles.length = (kids.filter isParaNode).length := by
+    simp [startOf, paraPositions_slots, slots_length]
+  rw [hlen]
+  have hdoc : docItems (.node .ROOT kids) = (kids.filter isParaNode).map items := by
+    simp only [docItems, paragraphs, Node.children]
+    rfl
+  rw [hdoc]
+  simp only [mrun, List.foldl_cons, List.foldl_nil, mstep, LModel.init, LModel.addp, LModel.edit]
+  generalize kids.filter isParaNode = P
+  have h1 : (P.map (fun n => some (items n)) ++ [some []])[P.length]? = some (some ([] : Items)) := by
+    rw [List.getElem?_append_right (by simp)]
+    simp
+  simp only [h1, List.length_map, ListSpec.set, List.map_append, List.map_cons, List.map_nil]
+  congr 1
+  · apply List.ext_getElem
+    · simp
+    · intro i hi1 hi2
+      have hi : i < P.length := by simpa using hi1
+      have hne : P.length ≠ i := by omega
+      simp [List.getElem?_append_left, hi]
+  · simp
+
+/-! ### copyright `Header::fix` -/
+
+/-- without a `Format-Specification` field `fix` is ONE `Paragraph::set` of the `Format` field to
+    its normal form (so `C15_set_get`, `C15_set_frame`, `C15_set_children` apply: every other
+    field, every comment stays), and does nothing when there is no `Format` either -/
+theorem C15_fix_plain (cs : List DNode) (h : pget cs fFormatSpec = none) :
+    fixSem cs = match pget cs fFormat with
+      | some f => paraSet cs fFormat (normFormat f)
+      | none => cs := by
+  unfold fixSem
+  simp only [h, Option.isSome_none, Bool.false_eq_true, ↓reduceIte]
+  cases pget cs fFormat <;> rfl
+
+/-- with a `Format-Specification` field: the first one is renamed to `Format` in place (value
+    kept, `C04_refine_rename`), then `Format` is normalised; every field of another name stays -/
+theorem C15_fix_frame (cs : List DNode) :
+    others (others (pitems (fixSem cs)) fFormat) fFormatSpec
+      = others (others (pitems cs) fFormat) fFormatSpec := by
+  have hne : fFormatSpec ≠ fFormat := by decide
+  have hren : ∀ l : Items, others (others (ListSpec.rename l fFormatSpec fFormat) fFormat) fFormatSpec
+      = others (others l fFormat) fFormatSpec := by
+    intro l
+    induction l with
+    | nil => rfl
+    | cons f fs ih =>
+      simp only [ListSpec.rename]
+      split
+      · rename_i hf
+        have hff : f.1 ≠ fFormat := by rw [hf]; exact hne
+        rw [others_cons, others_cons]
+        simp only [↓reduceIte, hff]
+        rw [others_cons]
+        simp only [hf, ↓reduceIte]
+      · rename_i hf
+        rw [others_cons, others_cons]
+        split
+        · exact ih
+        · rw [others_cons, others_cons]
+          simp only [hf, ↓reduceIte, ih]
+  have key : ∀ cs1 : List DNode,
+      others (others (pitems cs1) fFormat) fFormatSpec = others (others (pitems cs) fFormat) fFormatSpec →
+      others (others (pitems (match pget cs1 fFormat with
+        | some f => paraSet cs1 fFormat (normFormat f)
+        | none => cs1)) fFormat) fFormatSpec = others (others (pitems cs) fFormat) fFormatSpec := by
+    intro cs1 h1
+    cases pget cs1 fFormat with
+    | none => exact h1
+    | some f =>
+      show others (others (pitems (paraSet cs1 fFormat (normFormat f))) fFormat) fFormatSpec = _
+      rw [(C15_set_frame cs1 fFormat (normFormat f)).2, h1]
+  unfold fixSem
+  apply key
+  split
+  · rw [(C04_refine_rename cs fFormatSpec fFormat).1, hren]
+  · rfl
+
+/-- the normal form: ends in `/`, `http:` became `https:`; known formats become the current one -/
+theorem C15_fix_norm_examples :
+    normFormat "http://www.debian.org/doc/packaging-manuals/copyright-format/1.0".toList
+      = Gen.Accessors.copyrightCurrentFormat
+    ∧ normFormat "http://example.com/other".toList = "https://example.com/other/".toList
+    ∧ normFormat Gen.Accessors.copyrightCurrentFormat = Gen.Accessors.copyrightCurrentFormat := by
+  decide +kernel
+
+/-! ### sequences of several setters on one paragraph (rows, values) -/
+
+/-- the setter half of the pair conditions -/
+def setterWf (s : Row) : Bool :=
+  s.op == .set && clearOk s && !s.names.isEmpty && s.names.contains s.dflt
+
+def disjointNames (a b : List Str) : Bool := a.all fun n => !b.contains n
+
+/-- a history of setter calls on one paragraph; `none` when a call is not modelled -/
+def runCalls (cs : List DNode) : List (Row × Val) → Option (List DNode)
+  | [] => some cs
+  | c :: rest => (setSem c.1 c.2 cs).bind fun cs' => runCalls cs' rest
+
+/-- what one call does to the tree: `Paragraph::set` or `Paragraph::remove` on ONE of its names -/
+def StepOn (cs cs' : List DNode) (k : Str) : Prop := (∃ t, cs' = paraSet cs k t) ∨ cs' = paraRemove cs k
+
+theorem setSem_step (s : Row) (v : Val) (cs cs' : List DNode) (hw : setterWf s = true)
+    (h : setSem s v cs = some cs') : ∃ k ∈ s.names, StepOn cs cs' k := by
+  simp only [setterWf, Bool.and_eq_true, beq_iff_eq, Bool.not_eq_true', List.contains_eq_mem,
+    decide_eq_true_eq] at hw
+  obtain ⟨⟨⟨hop, hclear⟩, hne⟩, hd⟩ := hw
+  refine ⟨target cs s.names s.dflt, target_mem cs s.names s.dflt hd, ?_⟩
+  simp only [setSem, hne, Bool.false_eq_true, ↓reduceIte] at h
+  by_cases hc : clears s v = true
+  · have hopt : (s.optional || s.shape == .flagYesOrRemove) = true := by
+      unfold clears at hc
+      split at hc
+      · simp [hc]
+      · simp [hc]
+      · cases hc
+    simp only [clearOk, hopt, ↓reduceIte, Bool.and_eq_true, beq_iff_eq] at hclear
+    simp only [hc, ↓reduceIte, applyClear, hclear.1, Option.some.injEq] at h
+    exact Or.inr h.symm
+  · simp only [hc, Bool.false_eq_true, ↓reduceIte] at h
+    cases ht : writeText s.shape (firstOf cs s.names) v with
+    | none => rw [ht] at h; cases h
+    | some t =>
+      rw [ht] at h
+      simp only [applyOp, hop, Option.some.injEq] at h
+      exact Or.inl ⟨t, h.symm⟩
+
+theorem pget_step (cs cs' : List DNode) (k k' : Str) (hk : k' ≠ k) (h : StepOn cs cs' k) :
+    pget cs' k' = pget cs k' := by
+  rcases h with ⟨t, rfl⟩ | rfl
+  · exact (C15_set_frame cs k t).1 k' hk
+  · exact (C15_clear cs k).2.2.1 k' hk
+
+theorem others_step (cs cs' : List DNode) (k : Str) (h : StepOn cs cs' k) :
+    others (pitems cs') k = others (pitems cs) k := by
+  rcases h with ⟨t, rfl⟩ | rfl
+  · exact (C15_set_frame cs k t).2
+  · exact (C15_clear cs k).2.2.2
+
+theorem firstOf_congr (cs cs' : List DNode) (names : List Str)
+    (h : ∀ n ∈ names, pget cs' n = pget cs n) : firstOf cs' names = firstOf cs names := by
+  induction names with
+  | nil => rfl
+  | cons n ns ih =>
+    simp only [firstOf, h n (by simp)]
+    rw [ih (fun m hm => h m (by simp [hm]))]
+
+theorem pgetAll_eq (cs : List DNode) (k : Str) :
+    pgetAll cs k = (pitems cs).filterMap fun kv => if kv.1 == k then some kv.2 else none := rfl
+
+theorem filterMap_others (l : Items) (k k' : Str) (hk : k' ≠ k) :
+    (others l k).filterMap (fun kv => if kv.1 == k' then some kv.2 else none)
+      = l.filterMap (fun kv => if kv.1 == k' then some kv.2 else none) := by
+  induction l with
+  | nil => rfl
+  | cons f fs ih =>
+    rw [others_cons]
+    split
+    · rename_i hf
+      have hne : (f.1 == k') = false := by rw [hf]; exact beq_false_of_ne (Ne.symm hk)
+      rw [List.filterMap_cons]
+      simp only [hne, Bool.false_eq_true, ↓reduceIte]
+      exact ih
+    · rw [List.filterMap_cons, List.filterMap_cons, ih]
+
+/-- **one call, another accessor's fields**: a setter whose names are all different from the
+    getter's names leaves the getter's result unchanged (getters reading by `get` or `get_all`) -/
+theorem C15_call_frame (g s : Row) (v : Val) (cs cs' : List DNode) (a : Bool)
+    (hg : g.op = .get ∨ g.op = .getAll) (hw : setterWf s = true)
+    (hd : disjointNames s.names g.names = true) (h : setSem s v cs = some cs') :
+    getSem g a cs' = getSem g a cs := by
+  obtain ⟨k, hk, hstep⟩ := setSem_step s v cs cs' hw h
+  have hne : ∀ n ∈ g.names, n ≠ k := by
+    intro n hn e
+    subst e
+    simp only [disjointNames, List.all_eq_true, Bool.not_eq_true', List.contains_eq_mem,
+      decide_eq_false_iff_not] at hd
+    exact hd n hk hn
+  rcases hg with hg | hg
+  · have := firstOf_congr cs cs' g.names (fun n hn => pget_step cs cs' k n (hne n hn) hstep)
+    simp only [getSem, hg, this]
+  · simp only [getSem, hg]
+    cases hn : g.names with
+    | nil => rfl
+    | cons n ns =>
+      cases ns with
+      | cons _ _ => rfl
+      | nil =>
+        have hnk : n ≠ k := hne n (by simp [hn])
+        simp only [pgetAll_eq]
+        rw [← filterMap_others (pitems cs') k n hnk, others_step cs cs' k hstep,
+          filterMap_others (pitems cs) k n hnk]
+
+theorem runCalls_append (cs : List DNode) (a b : List (Row × Val)) :
+    runCalls cs (a ++ b) = (runCalls cs a).bind fun mid => runCalls mid b := by
+  induction a generalizing cs with
+  | nil => rfl
+  | cons c r ih =>
+    simp only [List.cons_append, runCalls]
+    cases setSem c.1 c.2 cs with
+    | none => rfl
+    | some cs' => simpa using ih cs'
+
+/-- a getter none of whose names is written by any call of the sequence reads what it read on the
+    original paragraph -/
+theorem C15_calls_untouched (g : Row) (a : Bool) (hg : g.op = .get ∨ g.op = .getAll)
+    (calls : List (Row × Val)) (cs cs' : List DNode)
+    (hw : ∀ c ∈ calls, setterWf c.1 = true ∧ disjointNames c.1.names g.names = true)
+    (h : runCalls cs calls = some cs') : getSem g a cs' = getSem g a cs := by
+  induction calls generalizing cs with
+  | nil => simp only [runCalls, Option.some.injEq] at h; rw [h]
+  | cons c rest ih =>
+    simp only [runCalls] at h
+    cases hs : setSem c.1 c.2 cs with
+    | none => rw [hs] at h; cases h
+    | some mid =>
+      rw [hs] at h
+      simp only [Option.bind_some] at h
+      rw [ih mid (fun d hd => hw d (by simp [hd])) h]
+      exact C15_call_frame g c.1 c.2 cs mid a hg (hw c (by simp)).1 (hw c (by simp)).2 hs
+
+/-- **sequences**: after any list of setter calls, a getter reads what it read right after the LAST
+    call that wrote (one of) its names — every later call, writing other fields, is invisible to it -/
+theorem C15_calls_last (g : Row) (a : Bool) (hg : g.op = .get ∨ g.op = .getAll)
+    (pre : List (Row × Val)) (c : Row × Val) (post : List (Row × Val)) (cs mid cs' : List DNode)
+    (hpost : ∀ d ∈ post, setterWf d.1 = true ∧ disjointNames d.1.names g.names = true)
+    (hmid : runCalls cs (pre ++ [c]) = some mid)
+    (h : runCalls cs (pre ++ [c] ++ post) = some cs') : getSem g a cs' = getSem g a mid := by
+  rw [runCalls_append, hmid] at h
+  exact C15_calls_untouched g a hg post mid cs' hpost h
+
+/-- … so with the pair conditions for that last call: the getter returns `decode` of the text the
+    last call wrote (the value itself under the codec round trip), or its absent value when the
+    last call cleared the field — whatever was called before and after -/
+theorem C15_calls_last_value (g s : Row) (v : Val) (a : Bool) (hp : pairOk g s = true)
+    (pre post : List (Row × Val)) (cs before cs' : List DNode)
+    (hpost : ∀ d ∈ post, setterWf d.1 = true ∧ disjointNames d.1.names g.names = true)
+    (hbefore : runCalls cs pre = some before)
+    (h : runCalls cs (pre ++ [(s, v)] ++ post) = some cs') :
+    (clears s v = true → getSem g a cs' = absentVal g)
+    ∧ (clears s v = false → ∀ t, writeText s.shape (firstOf before s.names) v = some t →
+        getSem g a cs' = decode g.shape g.strict a t) := by
+  have hgop : g.op = .get := by
+    simp only [pairOk, Bool.and_eq_true, beq_iff_eq] at hp
+    exact hp.1.1.1.1.1.1.2
+  obtain ⟨k, _, _, _, h1, h2⟩ := C15_pair_sound g s hp before v a
+  have hsplit : runCalls cs (pre ++ [(s, v)]) = (setSem s v before) := by
+    rw [runCalls_append, hbefore]
+    simp only [Option.bind_some, runCalls]
+    cases setSem s v before <;> rfl
+  refine ⟨fun hc => ?_, fun hc t ht => ?_⟩
+  · obtain ⟨_, e2, _, e4⟩ := h2 hc
+    rw [C15_calls_last g a (Or.inl hgop) pre (s, v) post cs _ cs' hpost (hsplit.trans e2) h, e4]
+  · obtain ⟨e1, _, e3⟩ := h1 t hc ht
+    rw [C15_calls_last g a (Or.inl hgop) pre (s, v) post cs _ cs' hpost (hsplit.trans e1) h, e3]
+
+/-- the fields whose names no call of the sequence names are the same list in the same order
+    (with `C15_set_children`: comments and white space of the paragraph stay as well) -/
+theorem keep_of_mem (S : List Str) (k : Str) (hk : k ∈ S) (l : Items) : keep S l = keep S (others l k) := by
+  simp only [keep, others, List.filter_filter]
+  congr 1
+  funext f
+  by_cases e : f.1 = k
+  · subst e; simp [hk]
+  · simp [e]
+
+theorem C15_calls_frame (calls : List (Row × Val)) (cs cs' : List DNode)
+    (hw : ∀ c ∈ calls, setterWf c.1 = true) (h : runCalls cs calls = some cs') :
+    keep (calls.flatMap fun c => c.1.names) (pitems cs')
+      = keep (calls.flatMap fun c => c.1.names) (pitems cs) := by
+  have gen : ∀ (S : List Str) (calls : List (Row × Val)) (cs : List DNode),
+      (∀ c ∈ calls, setterWf c.1 = true ∧ ∀ n ∈ c.1.names, n ∈ S) → runCalls cs calls = some cs' →
+      keep S (pitems cs') = keep S (pitems cs) := by
+    intro S calls
+    induction calls with
+    | nil => intro cs _ h; simp only [runCalls, Option.some.injEq] at h; rw [h]
+    | cons c rest ih =>
+      intro cs hc h
+      simp only [runCalls] at h
+      cases hs : setSem c.1 c.2 cs with
+      | none => rw [hs] at h; cases h
+      | some mid =>
+        rw [hs] at h
+        simp only [Option.bind_some] at h
+        rw [ih mid (fun d hd => hc d (by simp [hd])) h]
+        obtain ⟨k, hk, hstep⟩ := setSem_step c.1 c.2 cs mid (hc c (by simp)).1 hs
+        have hkS := (hc c (by simp)).2 k hk
+        rw [keep_of_mem S k hkS (pitems mid), keep_of_mem S k hkS (pitems cs), others_step cs mid k hstep]
+  apply gen _ calls cs _ h
+  intro c hc
+  refine ⟨hw c hc, fun n hn => ?_⟩
+  simp only [List.mem_flatMap]
+  exact ⟨c, hc, hn⟩
+
+def seqNamesCheck : Bool :=
+  let good := Gen.Accessors.rows.filter fun r =>
+    r.kind == .set && !r.isOpaque && r.shape != .addPara && !isBad r
+  good.all setterWf &&
+  Gen.Accessors.rows.all fun g =>
+    !(g.kind == .get && (g.op == .get || g.op == .getAll) && !g.isOpaque) ||
+      good.all fun s => !(s.view == g.view) || s.names == g.names || disjointNames s.names g.names
+
+/-- on the generated table the hypotheses of the sequence theorems hold for every view: every
+    setter outside `knownBad` is well-formed, and for every getter a setter of the same view either
+    looks for exactly the getter's names or for none of them -/
+theorem C15_table_seq_names : seqNamesCheck = true := by decide +kernel
 
 /-- the hypotheses are satisfiable: `control.Source.maintainer` / `set_maintainer` -/
 example : ∃ g s, g ∈ Gen.Accessors.rows ∧ g.kind = .get ∧ g.isOpaque = false ∧ setterOf g = some s ∧ isBad s = false
